@@ -160,7 +160,13 @@ def compile_col_expr(
 
         if expr.op in (ops.rank, ops.dense_rank):
             assert len(expr.args) == 0
-            args = [pl.struct(merge_desc_nulls_last(order_by, descending, nulls_last))]
+            # unique field names, the ordering expressions may be rooted at the same column
+            args = [
+                pl.struct(
+                    ord.alias(f"__order_by_{i}__")
+                    for i, ord in enumerate(merge_desc_nulls_last(order_by, descending, nulls_last))
+                )
+            ]
             arrange = None
 
         value: pl.Expr = impl(*args, _partition_by=partition_by, **(op_kwargs or {}))
